@@ -84,7 +84,7 @@ class SimThread(object):
     __slots__ = (
         "idx", "name", "baton", "pending", "finished", "started", "exc", "root_key",
         "ident", "timed_out", "deadline", "dead", "inject", "obj", "is_client", "steps",
-        "blocked_site", "spin_key", "spin_epoch", "trash",
+        "blocked_site", "spin_key", "spin_epoch", "trash", "nev",
     )
 
     def __init__(self, idx, name):
@@ -109,6 +109,7 @@ class SimThread(object):
         self.spin_key = None
         self.spin_epoch = -1
         self.trash = []
+        self.nev = 0
 
 
 # ---------------------------------------------------------------------------
@@ -131,14 +132,22 @@ def reset_global_locks():
         r._count = 0
 
 
+_GLOBAL_UID = [0]
+
+
 class ShimLock(object):
-    __slots__ = ("owner", "__weakref__")
+    __slots__ = ("owner", "uid", "__weakref__")
 
     def __init__(self):
         self.owner = None
         s = CUR
         if s is None or s.mode != RUN:
             _GLOBAL_LOCKS.add(self)
+            _GLOBAL_UID[0] -= 1
+            self.uid = _GLOBAL_UID[0]
+        else:
+            s.lock_seq += 1
+            self.uid = s.lock_seq
 
     def acquire(self, blocking=True, timeout=-1):
         s = CUR
@@ -551,6 +560,11 @@ class Scheduler(object):
             return me
         if len(en) == 1:
             return en[0]
+        if self.directive is not None and len(en) > 1:
+            d = self._directed(en)
+            if d is not None:
+                en = [d] + [t for t in en if t is not d]
+                me_en = False  # follow the predicted order regardless of preemption cost
         if me_en:
             opts = [me] + [t for t in en if t is not me]
             costs = [0] + [1] * (len(opts) - 1)
@@ -560,6 +574,23 @@ class Scheduler(object):
         label = "%s|%s" % (me.idx if me is not None else "-", ",".join(str(t.idx) for t in opts))
         i = self.pm.choose(len(opts), label, costs)
         return opts[i]
+
+    def _directed(self, en):
+        """Directed schedule (engine L): prefer the enabled thread whose next synchronisation
+        event comes first in the predicted order; threads that have consumed their part of the
+        order run last."""
+        order = self.directive
+        best = None
+        bestpos = None
+        for t in en:
+            pos = order.get((t.name, t.nev))
+            if pos is None:
+                # next event not in the order: has this thread still something to do in it?
+                later = [p for (nm, k), p in order.items() if nm == t.name and k > t.nev]
+                pos = min(later) if later else None
+            if pos is not None and (bestpos is None or pos < bestpos):
+                best, bestpos = t, pos
+        return best
 
     def _site(self):
         try:
@@ -640,8 +671,6 @@ class Scheduler(object):
         if timeout is not None:
             self._mk_deadline(me, timeout)
         me.pending = ("acq", lock, blocking)
-        if self.lock_events is not None:
-            self.lock_events.append((me.idx, "req", id(lock)))
         self._yield(me)
         me.pending = None
         me.deadline = None
@@ -649,7 +678,8 @@ class Scheduler(object):
         if lock.owner is None or (self.unwinding and me.idx == 0 and blocking):
             lock.owner = me
             if self.lock_events is not None:
-                self.lock_events.append((me.idx, "acq", id(lock)))
+                self.lock_events.append((me.name, "acq", lock.uid, self._site()))
+                me.nev += 1
             if me.trash:
                 self._flush_if_safe(me)
             return True
@@ -665,7 +695,8 @@ class Scheduler(object):
             raise RuntimeError("release unlocked lock")
         lock.owner = None
         if self.lock_events is not None:
-            self.lock_events.append((me.idx, "rel", id(lock)))
+            self.lock_events.append((me.name, "rel", lock.uid, None))
+            me.nev += 1
         if self.post_release:
             # optional extra scheduling point right AFTER a release: lets threads that were
             # waiting for this lock run before the releasing thread's next (unlocked) statements
@@ -707,10 +738,16 @@ class Scheduler(object):
         me.pending = None
         me.deadline = None
         me.timed_out = False
+        if self.lock_events is not None and target.finished:
+            self.lock_events.append((me.name, "join", target.name, None))
+            me.nev += 1
 
     def op_start(self, thobj):
         me = self.by_ident.get(_get_ident())
-        t = SimThread(len(self.threads), thobj.name)
+        nm = thobj.name
+        if any(x.name == nm for x in self.threads):
+            nm = "%s~%d" % (nm, len(self.threads))
+        t = SimThread(len(self.threads), nm)
         t.obj = thobj
         thobj._sim = t
         t.pending = ("begin",)
@@ -719,6 +756,9 @@ class Scheduler(object):
         _thread.start_new_thread(self._bootstrap, (t, thobj))
         t.started = True
         if me is not None:
+            if self.lock_events is not None:
+                self.lock_events.append((me.name, "fork", t.name, None))
+                me.nev += 1
             me.pending = ("start",)
             self._yield(me)
             me.pending = None
@@ -801,6 +841,8 @@ class Scheduler(object):
     tracefn = None
     profilefn = None
     FAIR = 400
+    lock_seq = 0
+    directive = None
     post_release = False
     switches = 0
     run_len = 0
